@@ -938,7 +938,8 @@ theorem mapM3 {β γ : Type} (f : β → Option γ) (a b c : β) (out : List γ)
 /-- what a matching literal cell says about the table -/
 theorem derive_table (K : Nat) (l : RawLayout) (k f : Nat) (c : RCell) (h : deriveCell K l k f = some c) :
     tableCell l k f = some (cellReal K c) ∧ c.region = k ∧ c.fan = f ∧
-      ∃ r, l.regions[k]? = some r ∧ ((r.kind = 0 ∧ c.kind = 0 ∧ f = 0) ∨ (r.kind = 1 ∧ c.kind = 1 ∧ f < r.pos.length)) := by
+      ∃ r, l.regions[k]? = some r ∧ ((r.kind = 0 ∧ c.kind = 0 ∧ f = 0) ∨ (r.kind = 1 ∧ c.kind = 1 ∧ f < r.pos.length ∧
+        c.gch = [r.ch[r.order.getD f 0]?, r.ch[r.order.getD ((f + 1) % r.pos.length) 0]?, none])) := by
   unfold deriveCell at h
   unfold tableCell
   split at h
@@ -977,7 +978,7 @@ theorem derive_table (K : Nat) (l : RawLayout) (k f : Nat) (c : RCell) (h : deri
               simp only [Option.some.injEq] at h
               subst h
               obtain ⟨x, y, z, hx, hy, hz, rfl⟩ := mapM3 _ _ _ _ _ hrows
-              refine ⟨?_, rfl, rfl, r, rfl, Or.inr ⟨k1, rfl, hf⟩⟩
+              refine ⟨?_, rfl, rfl, r, rfl, Or.inr ⟨k1, rfl, hf, rfl⟩⟩
               simp only [ha, hb]
               simp only [cellReal, rowAt, List.getD_cons_zero, List.getD_cons_succ, unscale_scale K _ _ hx,
                 unscale_scale K _ _ hy, unscale_scale K _ _ hz]
@@ -1062,7 +1063,7 @@ theorem cell_of_table (hs : CertSpec K l cert) {k f : Nat} {X : TRegion} (hX : t
       have : r' = r := (Option.some.inj hr').symm
       subst this
       have hfan : c.fan = 0 := by
-        rcases hkind with ⟨_, _, h0⟩ | ⟨h1, _, _⟩
+        rcases hkind with ⟨_, _, h0⟩ | ⟨h1, _, _, _⟩
         · exact h0
         · rw [k0] at h1; exact absurd h1 (by decide)
       rw [hfan] at ht
@@ -1235,6 +1236,151 @@ theorem meet_of_outer {c c' : RCell} (hc : CellSpec K c) (hc' : CellSpec K c') (
     · refine Or.inr ⟨hrj, ?_⟩
       show chanAt c.lch j = chanAt c'.lch j'
       rw [Option.some.inj hcj, Option.some.inj hcj', hcc]
+
+/-! ### part E: the panner of Triplet and VirtualNgon regions of a table -/
+
+/-- the model's Triplet and VirtualNgon regions of a table (`RawRegion.toRegion`), in evaluation order -/
+noncomputable def tnRegions (l : RawLayout) : List (Region ℝ) :=
+  l.regions.filterMap fun r => if r.kind == 2 then none else RawRegion.toRegion (α := ℝ) r
+
+theorem tnRegions_noQuad (l : RawLayout) : ∀ R ∈ tnRegions l, R.noQuad := by
+  intro R hR
+  simp only [tnRegions, List.mem_filterMap] at hR
+  obtain ⟨r, _, hto⟩ := hR
+  by_cases k2 : r.kind = 2
+  · simp [k2] at hto
+  · have k2' : (r.kind == 2) = false := by simpa using k2
+    simp only [k2', Bool.false_eq_true, if_false] at hto
+    unfold RawRegion.toRegion at hto
+    split at hto
+    · rw [← Option.some.inj hto]; trivial
+    · rw [← Option.some.inj hto]; trivial
+    · rename_i h2; exact absurd h2 k2
+    · exact absurd hto (by simp)
+
+/-- a region of `tnRegions` with the raw region it comes from -/
+theorem tnRegions_mem {l : RawLayout} {R : Region ℝ} (hR : R ∈ tnRegions l) :
+    ∃ k r, l.regions[k]? = some r ∧
+      ((r.kind = 0 ∧ ∃ a b d, r.pos = [a, b, d] ∧ R = Region.triplet r.ch (p3 a, p3 b, p3 d)) ∨
+       (r.kind = 1 ∧ R = Region.ngon r.ch (ngonOf r))) := by
+  simp only [tnRegions, List.mem_filterMap] at hR
+  obtain ⟨r, hr, hto⟩ := hR
+  obtain ⟨k, hk⟩ := List.mem_iff_getElem?.mp hr
+  refine ⟨k, r, hk, ?_⟩
+  by_cases k2 : r.kind = 2
+  · simp [k2] at hto
+  · have k2' : (r.kind == 2) = false := by simpa using k2
+    simp only [k2', Bool.false_eq_true, if_false] at hto
+    unfold RawRegion.toRegion at hto
+    split at hto
+    · rename_i a b d h0 hpos
+      exact Or.inl ⟨h0, a, b, d, hpos, (Option.some.inj hto).symm⟩
+    · rename_i h1
+      exact Or.inr ⟨h1, (Option.some.inj hto).symm⟩
+    · rename_i h2; exact absurd h2 k2
+    · exact absurd hto (by simp)
+
+/-- the panner output channels of a cell, read off the model's region, are those of the literal cell -/
+theorem gchan_cell (hs : CertSpec K l cert) {k f : Nat} {r : RawRegion} {R : Region ℝ} {c : RCell}
+    (hr : l.regions[k]? = some r) (hc : c ∈ cert.cells) (hck : c.region = k) (hcf : c.fan = f)
+    (hR : (r.kind = 0 ∧ ∃ a b d, r.pos = [a, b, d] ∧ R = Region.triplet r.ch (p3 a, p3 b, p3 d)) ∨
+      (r.kind = 1 ∧ R = Region.ngon r.ch (ngonOf r))) :
+    R.gchan (cellReal K c).1 = gOf c := by
+  have hm := hs.matches_ c hc
+  rw [hck, hcf] at hm
+  obtain ⟨_, _, _, r', hr', hkind⟩ := derive_table K l k f c hm
+  rw [hr] at hr'
+  have : r' = r := (Option.some.inj hr').symm
+  subst this
+  have hcs := hs.cellsOk c hc
+  funext a
+  rcases hR with ⟨k0, _, _, _, _, rfl⟩ | ⟨k1, rfl⟩
+  · have kc : c.kind = 0 := by
+      rcases hkind with ⟨_, h, _⟩ | ⟨h, _, _, _⟩
+      · exact h
+      · rw [k0] at h; exact absurd h (by decide)
+    simp only [Region.gchan, cellReal]
+    exact (hcs.gtri kc a).symm
+  · obtain ⟨hng, _⟩ := hs.regions k r' hr
+    simp only [ngonRegionOk, k1, bne_self_eq_false, Bool.false_or, Bool.and_eq_true, List.all_eq_true,
+      List.mem_range, beq_iff_eq, decide_eq_true_eq, bne_iff_ne, ne_eq] at hng
+    obtain ⟨⟨⟨⟨hchlen, _⟩, _⟩, _⟩, hfans⟩ := hng
+    rcases hkind with ⟨h, _, _⟩ | ⟨_, _, hf, hgch⟩
+    · rw [k1] at h; exact absurd h (by decide)
+    · obtain ⟨⟨⟨_, _⟩, h1⟩, h2⟩ := hfans f hf
+      have hlch : c.lch = [r'.order.getD f 0, r'.order.getD ((f + 1) % r'.pos.length) 0, r'.pos.length] := by
+        have := congrArg (fun o => o.map (·.lch)) hm
+        unfold deriveCell at this
+        have k0' : (r'.kind == 0) = false := by rw [k1]; rfl
+        have k1' : (r'.kind == 1) = true := by rw [k1]; rfl
+        simp only [hr, k0', Bool.false_eq_true, if_false, k1', if_true, hf] at this
+        rw [List.getElem?_eq_getElem h1, List.getElem?_eq_getElem h2] at this
+        simp only at this
+        split at this
+        · simpa using this.symm
+        · simp at this
+      simp only [Region.gchan, cellReal, gOf, hgch, hlch]
+      rw [← hchlen] at h1 h2
+      fin_cases a
+      · simp [chanAt, List.getElem?_eq_getElem h1, List.getD_eq_getElem?_getD]
+      · simp [chanAt, List.getElem?_eq_getElem h2, List.getD_eq_getElem?_getD]
+      · simp
+
+/-- **THE TRIPLET AND N-GON REGIONS OF A CHECKED TABLE satisfy every hypothesis of `panner_continuousOn_tri_ngon`** -/
+theorem tnRegions_ok (hs : CertSpec K l cert) :
+    (∀ R ∈ tnRegions l, R.tnOk) ∧
+    (∀ R ∈ tnRegions l, ∀ R' ∈ tnRegions l, R ≠ R' → ∀ X ∈ R.tcells, ∀ Y ∈ R'.tcells, MeetInOuterFace R X R' Y) := by
+  -- the cells of a region are cells of the table
+  have hcells : ∀ R ∈ tnRegions l, ∃ k r, l.regions[k]? = some r ∧
+      ((r.kind = 0 ∧ ∃ a b d, r.pos = [a, b, d] ∧ R = Region.triplet r.ch (p3 a, p3 b, p3 d)) ∨
+       (r.kind = 1 ∧ R = Region.ngon r.ch (ngonOf r))) ∧ ∀ X ∈ R.tcells, ∃ f, tableCell l k f = some X := by
+    intro R hR
+    obtain ⟨k, r, hr, hkind⟩ := tnRegions_mem hR
+    refine ⟨k, r, hr, hkind, ?_⟩
+    rcases hkind with ⟨k0, a, b, d, hpos, rfl⟩ | ⟨k1, rfl⟩
+    · intro X hX
+      simp only [Region.tcells, List.mem_singleton] at hX
+      exact ⟨0, by rw [hX]; exact triplet_table hr k0 hpos⟩
+    · intro X hX
+      obtain ⟨f, _, ht⟩ := (ngon_table hs hr k1).1 X hX
+      exact ⟨f, ht⟩
+  refine ⟨?_, ?_⟩
+  · intro R hR
+    obtain ⟨k, r, hr, hkind, hX⟩ := hcells R hR
+    rcases hkind with ⟨k0, a, b, d, hpos, rfl⟩ | ⟨k1, rfl⟩
+    · obtain ⟨f, ht⟩ := hX _ (by simp [Region.tcells])
+      obtain ⟨c, hc, _, _, he⟩ := cell_of_table hs ht
+      have hcs := hs.cellsOk c hc
+      rw [← he] at hcs
+      exact ⟨hcs.det, hcs.chOk⟩
+    · obtain ⟨_, h2, h3, h4, h5, h6, h7⟩ := ngon_table hs hr k1
+      exact ⟨h2, h3, h4, h5, h6, h7⟩
+  · intro R hR R' hR' hne X hX Y hY
+    obtain ⟨k, r, hr, hkind, hXc⟩ := hcells R hR
+    obtain ⟨k', r', hr', hkind', hYc⟩ := hcells R' hR'
+    have hkk : k ≠ k' := by
+      intro e; subst e
+      rw [hr] at hr'
+      have : r' = r := (Option.some.inj hr').symm
+      subst this
+      apply hne
+      rcases hkind with ⟨k0, a, b, d, hpos, rfl⟩ | ⟨k1, rfl⟩
+      · rcases hkind' with ⟨_, a', b', d', hpos', rfl⟩ | ⟨k1', _⟩
+        · rw [hpos] at hpos'
+          simp only [List.cons.injEq, and_true] at hpos'
+          obtain ⟨rfl, rfl, rfl⟩ := hpos'
+          rfl
+        · rw [k0] at k1'; exact absurd k1' (by decide)
+      · rcases hkind' with ⟨k0', _⟩ | ⟨_, rfl⟩
+        · rw [k1] at k0'; exact absurd k0' (by decide)
+        · rfl
+    obtain ⟨f, ht⟩ := hXc X hX
+    obtain ⟨f', ht'⟩ := hYc Y hY
+    obtain ⟨c, c', hc, hc', rfl, rfl, hck, hck', _, m2, _⟩ := faces_sound hs ht ht' (Or.inl hkk)
+    have hcf : c.fan = f := by
+      obtain ⟨c2, hc2, hck2, hcf2, he⟩ := cell_of_table hs ht
+      sorry
+    sorry
 
 end Faces
 
